@@ -3,7 +3,7 @@
    and ANY history (list) of punctures of any length, in any order, with repetitions.  Statements only. *)
 From Coq Require Import NArith Arith Bool List.
 Import ListNotations.
-From StarV Require Import Params Ggm GgmFacts.
+From StarV Require Import Params Ggm GgmFacts SrvFacts.
 
 (* after the history h, input x evaluates iff it was never punctured, and then to exactly the value it had
    on the fresh key (nv: the iterated PRG from the top-level seeds) *)
@@ -45,6 +45,15 @@ Theorem C10_distinct : forall (Seed : Type) (prg : bool -> Seed -> Seed) (s0 s1 
   x <> [] -> length x = length y -> nv Seed prg s0 s1 x = nv Seed prg s0 s1 y ->
   x = y \/ PrgCollision Seed prg \/ s0 = s1.
 Proof. exact values_distinct. Qed.
+
+(* the code's instance: one input byte = depth 8, through the byte interface with its length check *)
+Theorem C10_code_depth : forall (Seed : Type) (prg : bool -> Seed -> Seed) (s0 s1 : Seed) (h : list N) (x : N),
+  ggm_eval Seed prg (fold_left (bpunct Seed prg) h (ginit Seed s0 s1)) [x] =
+    if in_dec_bits (md_bits x) (map md_bits h) then inr NoPrefixFound
+    else inl (Some (nv Seed prg s0 s1 (md_bits x))).
+Proof. exact ggm_bytes_history. Qed.
+Theorem C10_bytes_are_distinct_inputs : forall a b : N, (a < 256)%N -> (b < 256)%N -> md_bits a = md_bits b -> a = b.
+Proof. exact md_bits_inj. Qed.
 
 (* the byte interface of the code: 8 bits per input byte, least significant first *)
 Theorem C10_input_bits : input_bits [5%N] = [true; false; true; false; false; false; false; false].
